@@ -1167,6 +1167,8 @@ func scenFilter(out *scenOut, r *rng, thorough bool) {
 	}
 	filterSignal(out)
 	filterQuitParked(out)
+	filterBigBatch(out, "keep")
+	filterBigBatch(out, "drop")
 	for _, verdict := range []string{"keep", "drop", "replace"} {
 		filterRepeated(out, verdict)
 		for _, outcome := range []string{"ok", "fails", "release-fails"} {
@@ -2231,5 +2233,71 @@ func seqSlowBatchElement(out *scenOut) {
 	if strings.Join(ups, " ") != "c:sb-first c:sb-slow c:sb-next" {
 		out.fail(finding{Property: "C03", Class: "new", What: "the messages of a sequence with a slow batch element did not reach Update in sequence order", Input: desc,
 			Expected: "c:sb-first c:sb-slow c:sb-next", Observed: strings.Join(ups, " ")})
+	}
+}
+
+// filterBigBatch: Update returns a Batch of 300 commands (more than any slice size the loop might
+// work a batch off in): the filter is consulted for exactly ONE batch message, that of all 300
+// commands, and - having let it through - every command runs once and every result is filtered and
+// delivered once. With the verdict "drop" for that batch none of the commands runs.
+func filterBigBatch(out *scenOut, verdict string) {
+	ctl := newRecCtl()
+	const n = 300
+	var ran int32
+	var mu sync.Mutex
+	var batchSizes []int
+	cmds := make([]tea.Cmd, n)
+	for i := range cmds {
+		id := fmt.Sprintf("fb%d", i)
+		cmds[i] = func() tea.Msg { atomic.AddInt32(&ran, 1); return cmdMsg{id} }
+	}
+	filter := func(name string, m tea.Msg) tea.Msg {
+		if b, ok := m.(tea.BatchMsg); ok {
+			mu.Lock()
+			batchSizes = append(batchSizes, len(b))
+			mu.Unlock()
+			if verdict == "drop" {
+				return nil
+			}
+		}
+		return m
+	}
+	ctl.onUpdate = func(m tea.Msg, v int) tea.Cmd {
+		if u, ok := m.(userMsg); ok && u.Sender == 0 && u.Seq == 0 {
+			return tea.Batch(cmds...)
+		}
+		return nil
+	}
+	run := startProgram(ctl, nil, tea.WithInput(nil), tea.WithoutSignalHandler(), loggingFilter(ctl, filter))
+	desc := fmt.Sprintf("filter verdict=%s for the BatchMsg of a Batch of %d commands", verdict, n)
+	run.p.Send(userMsg{0, 0})
+	if verdict == "drop" {
+		time.Sleep(150 * time.Millisecond)
+	} else {
+		waitFor(5*time.Second, func() bool { return ctl.log.count("update-exit", "c:fb") >= n })
+		time.Sleep(30 * time.Millisecond)
+	}
+	run.p.Quit()
+	if !run.wait(5 * time.Second) {
+		out.fail(finding{Property: "C16", Class: "new", What: "program did not end", Input: desc, Observed: goroutineDump()})
+		return
+	}
+	out.record(desc, desc)
+	mu.Lock()
+	sizes := fmt.Sprint(batchSizes)
+	mu.Unlock()
+	if sizes != fmt.Sprintf("[%d]", n) {
+		out.fail(finding{Property: "C16", Class: "new", What: "the filter was not consulted exactly once, for the batch as it was produced (batch messages nobody sent reached it, or none did)", Input: desc,
+			Expected: fmt.Sprintf("[%d]", n), Observed: sizes})
+	}
+	wantRan := int32(n)
+	if verdict == "drop" {
+		wantRan = 0
+	}
+	if got := atomic.LoadInt32(&ran); got != wantRan {
+		out.fail(finding{Property: "C16", Class: "new", What: "the commands of a large batch did not follow the filter's verdict on its message", Input: desc, Expected: fmt.Sprint(wantRan), Observed: fmt.Sprint(got)})
+	}
+	if got := ctl.log.count("update-enter", "c:fb"); got != int(wantRan) {
+		out.fail(finding{Property: "C16", Class: "new", What: "results of the commands of a large batch did not reach Update exactly once", Input: desc, Expected: fmt.Sprint(wantRan), Observed: fmt.Sprint(got)})
 	}
 }
